@@ -511,3 +511,60 @@ def c12(run):
     validate_trace(run, "CelOpTrace", path, sample_key=lambda c: {"src": c["src"], "out": c["out"]},
                    nontrivial=lambda c: "\\" in c["src"] or any(ord(ch) > 127 for ch in c["src"]),
                    what="string/bytes literal: the value differs from the characters the literal denotes, or an invalid literal compiled")
+
+
+# ----------------------------------------------------------------------------------------------
+# C04 / C01 (the parser)
+
+sys.setrecursionlimit(200000)
+
+
+def parse_vec_stage(run, module, cfg, key, harness_cmd, workers=12):
+    r = model_check(run, module, cfg=cfg, workers=workers)
+    if not r.vecs:
+        raise T.ToolError("model %s produced no vectors" % cfg)
+    vec = run.work(cfg + ".vectors.ndjson")
+    with open(vec, "w") as f:
+        for v in r.vecs:
+            f.write(v + "\n")
+    out = run.work(cfg + ".cases.ndjson")
+    celconf([harness_cmd, "--in", vec, "--out", out])
+    run.extra.setdefault("models", []).append({"cfg": cfg, "distinct_states": r.distinct, key: len(r.vecs)})
+    return out
+
+
+@check("C04")
+def c04(run):
+    run.rule = ("model: CelParseMC -- every tree with <=2 (quick) / <=3 (thorough) operators over the operator set (?:, ||, &&, relations, + - * %, ! -, index, select, member call, "
+                "global call, list, map entry, all, map-with-filter) over an identifier and a literal is rendered fully and minimally parenthesised and must parse back to "
+                "itself through the grammar transcription; each pair of texts is parsed by cel-rust and both ASTs compared with the model's tree; impl->spec: every && / || chain "
+                "of length 2..64 (plain, and with literals and a parenthesised sub-chain), every prefix run of ! and - of length 1..6 on nine operand shapes, fixed precedence "
+                "probes, random trees (depth<=7) and the same with redundant parentheses, whitespace and comments: accepted texts must be sentences and the AST must equal "
+                "the grammar transcription's tree; non-trivial = contains an operator")
+    out = parse_vec_stage(run, "CelParseMC", run.q("CelParseMC", "CelParseMC_thorough"), "trees", "parse-vectors")
+    sk = lambda c: {"syms": c.get("syms"), "full": c.get("full", {}).get("src"), "min": c.get("min", {}).get("src")} if c.get("kind") == "vec" else {"src": c.get("src"), "outcome": c["out"]["k"]}
+    validate_trace(run, "CelParseTrace", out, sample_key=sk, nontrivial=lambda c: len(c.get("syms", [])) > 1,
+                   what="generated tree: cel-rust's parser did not return the tree that the rendered text denotes")
+    run.exhaustive = True
+    path = run.work("c04.ndjson")
+    celconf(["drive-parse", "--family", "c04", "--seed", run.seed, "--tier", run.tier, "--out", path])
+    validate_trace(run, "CelParseTrace", path, sample_key=sk, nontrivial=lambda c: any(ch in c.get("src", "") for ch in "+-*/%!<>=&|?.[("),
+                   what="parsing: the AST differs from the tree CEL's precedence/associativity rules assign to the text, or a valid text was rejected")
+
+
+@check("C01")
+def c01(run):
+    run.rule = ("model: CelSentenceMC -- every string of <=3 (quick) / <=4 (thorough) tokens over a 16-token alphabet (one representative per grammar role) classified by the "
+                "grammar transcription (ParenClosure, NoDanglingOperator); every string is compiled by cel-rust; impl->spec: random character strings (up to 4 KiB), random "
+                "token sequences, grammar-generated valid expressions, single-token insert/delete/replace/truncate mutants, nesting to depth 32, malformed-input probes. "
+                "Accepted => the text is a sentence; rejected => at least one error, each with non-empty text and a position inside the source; Parser::parse and "
+                "Program::compile must agree; a panic is never accepted; non-trivial = non-empty text")
+    out = parse_vec_stage(run, "CelSentenceMC", run.q("CelSentenceMC_q", "CelSentenceMC"), "token_strings", "sentence-vectors")
+    sk = lambda c: {"src": c.get("src"), "outcome": c["out"]["k"], "errors": c["out"].get("errors", [])[:2]}
+    validate_trace(run, "CelParseTrace", out, sample_key=sk, nontrivial=lambda c: len(c.get("src", "")) > 0,
+                   what="token string: accepted although it is not a sentence, or rejected without well-formed positioned errors, or panic")
+    run.exhaustive = True
+    path = run.work("c01.ndjson")
+    celconf(["drive-parse", "--family", "c01", "--seed", run.seed, "--tier", run.tier, "--out", path])
+    validate_trace(run, "CelParseTrace", path, sample_key=sk, nontrivial=lambda c: len(c.get("src", "")) > 0,
+                   what="compile: accepted although it is not a sentence, or rejected without well-formed positioned errors, or panic")
